@@ -120,7 +120,7 @@ func run(ci any, r *mon.Rec) {
 	if rng.Intn(5) == 0 { // a few coil fields must not disturb register extraction
 		fields = append(fields, fieldgen.Rand(rng, "coilx", fields[0].ServerAddress, fields[0].UnitID, int(fields[0].Address), 1))
 	}
-	b := modbus.NewRequestBuilder("", 0)
+	b := fieldgen.NewBuilder(uint64(c.Seed))
 	b.AddAll(append(modbus.Fields{}, fields...))
 	var reqs []modbus.BuilderRequest
 	var err error
